@@ -55,6 +55,25 @@ func (g *Gen) c16Floats() []float64 {
 		add(math.Float64frombits(g.rng.Uint64()))
 		add(float64(g.rng.Intn(1000000)) / []float64{1, 10, 100, 1000, 1e6}[g.rng.Intn(5)]) // short decimals
 	}
+	// integer-valued floats from 2^54 up, where neighbouring floats are 4, 8, ... apart: odd mantissas whose
+	// interval end points (the midpoints to the neighbours) are round decimals - the bounds of the shortest
+	// digit search are exclusive there; plus unselected ones
+	for sh := uint(2); sh <= 40; sh++ {
+		for k := 0; k < g.pick(40, 400); k++ {
+			m := uint64(1)<<52 | uint64(g.rng.Int63())&(1<<52-1) | 1
+			if sh <= 10 {
+				v, h := m<<sh, uint64(1)<<(sh-1)
+				if (v+h)%10 == 0 || (v-h)%10 == 0 || k%8 == 0 {
+					add(float64(v))
+				}
+			} else if k%8 == 0 {
+				add(math.Ldexp(float64(m), int(sh)))
+			}
+		}
+	}
+	for k := 0; k < g.pick(200, 5000); k++ {
+		add(float64(g.rng.Uint64()))
+	}
 	n := len(fs)
 	for i := 0; i < n; i += 2 {
 		fs = append(fs, -fs[i])
